@@ -1,7 +1,932 @@
-//! C16 driver (stub: not built yet).
-use crate::trace::Args;
+//! C16 driver: group-order methods (P-1, P+1, ECM 512/128-bit, PM1Base) on instances built to order,
+//! stage-2 grids as the real runs build them, and the splits returned by rho / gcd_factors.
+//!
+//! Events (judged by spec/stage2/Stage2Trace.tla):
+//!   row    one row (B2, d1, d2) of a stage-2 table of the code (discovered by probing / hook)
+//!   grid   the baby exponents and giant multiples a real run pushed (hook events s2_*), with
+//!          (B1, B2 requested, B2 reported, d1, d2)
+//!   inst   n = p*q built so that the method's group order at p is  s * l  (s a product of prime
+//!          powers below B1, l a prime in (B1, B2eff]) while q is provably not caught (its group
+//!          order has a certified prime factor f beyond every bound); carries the certificates and
+//!          the result of ONE run
+//!   split  a pair/list returned by rho64 / rho_impl / rho / gcd_factors
+//!   expmod / cheb   the exponentiation helpers against their definitions
+//! The harness only searches and schedules; every claim it makes travels as a certificate that the
+//! specification re-verifies (Witness) before the Strict predicate is evaluated.
 
-pub fn run(_args: &Args) -> i32 {
-    eprintln!("driver c16 not built yet");
-    2
+use std::collections::{BTreeMap, BTreeSet};
+
+use rand::rngs::StdRng;
+use rand::Rng;
+use serde_json::{json, Value};
+
+use yamaquasi::arith_montgomery::{gcd_factors, MInt, ZmodN};
+use yamaquasi::ecm::{vhook as eh, Curve, SmoothBase, Suyama11};
+use yamaquasi::ecm128::vhook as h128;
+use yamaquasi::{params, pollard_pm1, pollard_rho, pp1, Verbosity};
+
+use crate::gen::{is_prime_u64, rand_bits, rng_for, Uint};
+use crate::trace::*;
+
+// ------------------------------------------------------------------------------------------
+// small native arithmetic (search side only)
+// ------------------------------------------------------------------------------------------
+fn mm(a: u64, b: u64, n: u64) -> u64 {
+    ((a as u128 * b as u128) % n as u128) as u64
+}
+fn pw(mut b: u64, mut e: u64, n: u64) -> u64 {
+    let mut r = 1 % n;
+    b %= n;
+    while e > 0 {
+        if e & 1 == 1 {
+            r = mm(r, b, n);
+        }
+        b = mm(b, b, n);
+        e >>= 1;
+    }
+    r
+}
+fn gcd64(mut a: u64, mut b: u64) -> u64 {
+    while b != 0 {
+        let t = a % b;
+        a = b;
+        b = t;
+    }
+    a
+}
+/// Legendre symbol by Euler's criterion (p an odd prime): 1, p-1 (= -1) or 0
+fn euler(a: u64, p: u64) -> u64 {
+    pw(a % p, (p - 1) / 2, p)
+}
+/// V_k(s) mod q of the Lucas sequence V_0 = 2, V_1 = s, V_{m+1} = s V_m - V_{m-1}
+fn lucas_v(s: u64, k: u64, q: u64) -> u64 {
+    if k == 0 {
+        return 2 % q;
+    }
+    let sub = |a: u64, b: u64| (a + q - b % q) % q;
+    let (mut vk, mut vk1) = (s % q, sub(mm(s, s, q), 2));
+    let bits = 64 - k.leading_zeros();
+    for i in (0..bits - 1).rev() {
+        if (k >> i) & 1 == 0 {
+            vk1 = sub(mm(vk, vk1, q), s);
+            vk = sub(mm(vk, vk, q), 2);
+        } else {
+            vk = sub(mm(vk, vk1, q), s);
+            vk1 = sub(mm(vk1, vk1, q), 2);
+        }
+    }
+    vk
+}
+fn factor_small(mut x: u64) -> Vec<(u64, u32)> {
+    let mut v = vec![];
+    let mut d = 2;
+    while d * d <= x {
+        if x % d == 0 {
+            let mut e = 0;
+            while x % d == 0 {
+                x /= d;
+                e += 1;
+            }
+            v.push((d, e));
+        }
+        d += if d == 2 { 1 } else { 2 };
+    }
+    if x > 1 {
+        v.push((x, 1));
+    }
+    v
+}
+/// every prime power component of s is below b1
+fn smooth_below(s: u64, b1: u64) -> Option<Vec<(u64, u32)>> {
+    let f = factor_small(s);
+    for &(r, e) in &f {
+        if r.pow(e) >= b1 {
+            return None;
+        }
+    }
+    Some(f)
+}
+fn primes_in(lo: u64, hi: u64) -> Vec<u64> {
+    (lo..=hi).filter(|&x| is_prime_u64(x)).collect()
+}
+fn next_prime(mut x: u64) -> u64 {
+    loop {
+        x += 1;
+        if is_prime_u64(x) {
+            return x;
+        }
+    }
+}
+fn prev_prime(mut x: u64) -> u64 {
+    loop {
+        x -= 1;
+        if is_prime_u64(x) {
+            return x;
+        }
+    }
+}
+
+type E3 = (u64, u64, u64);
+/// the addition law with cleared denominators modulo a small prime, a = -1
+fn ed_add(d: u64, p: u64, a: &E3, b: &E3) -> E3 {
+    let sub = |x: u64, y: u64| (x + p - y) % p;
+    let zz = mm(a.2, b.2, p);
+    let bb = mm(zz, zz, p);
+    let x1x2 = mm(a.0, b.0, p);
+    let y1y2 = mm(a.1, b.1, p);
+    let n1 = (mm(a.0, b.1, p) + mm(a.1, b.0, p)) % p;
+    let n2 = (y1y2 + x1x2) % p; // y1y2 - a x1x2 with a = -1
+    let e = mm(d, mm(x1x2, y1y2, p), p);
+    let f = sub(bb, e);
+    let g = (bb + e) % p;
+    (mm(mm(n1, zz, p), f, p), mm(mm(n2, zz, p), g, p), mm(f, g, p))
+}
+/// MSB-first double-and-add, exactly the algorithm of EdwardsLaw!ScalarMul
+fn ed_mul(d: u64, p: u64, k: u64, g: &E3) -> E3 {
+    let mut r = (0, 1, 1);
+    for i in (0..64 - k.leading_zeros()).rev() {
+        r = ed_add(d, p, &r, &r);
+        if (k >> i) & 1 == 1 {
+            r = ed_add(d, p, &r, g);
+        }
+    }
+    r
+}
+fn ed_is_id(r: &E3) -> bool {
+    r.0 == 0 && r.1 == r.2 && r.2 != 0
+}
+fn ed_clean_nonid(r: &E3) -> bool {
+    r.2 != 0 && !(r.0 == 0 && r.1 == r.2)
+}
+
+/// curve of the Suyama-11 family for `seed`, built by the library over modulus n: (d, G) plain
+fn suyama_curve(n: &Uint, seed: u32) -> Option<(ZmodN, Curve, Uint, (Uint, Uint, Uint))> {
+    let zn = ZmodN::new(*n);
+    let r = guard(|| {
+        let s = Suyama11::new(&zn).ok()?;
+        let g = s.element(seed).and_then(|p| s.params_point(&p)).ok()?;
+        Curve::twisted_from_point(zn.clone(), g).ok()
+    });
+    let c = r.ok()??;
+    let (_, d) = c.a_d();
+    let g = eh::coords(c.gen());
+    let g = (zn.to_int(g.0), zn.to_int(g.1), zn.to_int(g.2));
+    Some((zn, c, d, g))
+}
+fn small_curve(p: u64, seed: u32) -> Option<(u64, E3)> {
+    let (_, _, d, g) = suyama_curve(&Uint::from(p), seed)?;
+    let lo = |x: &Uint| x.digits()[0];
+    let g = (lo(&g.0), lo(&g.1), lo(&g.2));
+    if g.2 == 0 || g.0 == 0 {
+        return None;
+    }
+    Some((lo(&d), g))
+}
+
+// ------------------------------------------------------------------------------------------
+// tables
+// ------------------------------------------------------------------------------------------
+#[derive(Clone, Copy, Debug, PartialEq)]
+struct Row {
+    b2: u64,
+    d1: u64,
+    d2: u64,
+}
+
+fn params_rows(maxb2: u64) -> Vec<Row> {
+    // the table of params.rs is private: probe the public selector on a fine geometric sweep
+    let mut rows: Vec<Row> = vec![];
+    let mut x = 50.0f64;
+    while x < 2.2 * maxb2 as f64 {
+        let (b2, d1, d2) = params::stage2_params(x);
+        let r = Row { b2: b2 as u64, d1, d2 };
+        if !rows.contains(&r) {
+            rows.push(r);
+        }
+        x *= 1.001;
+    }
+    rows.retain(|r| r.b2 <= maxb2);
+    rows
+}
+fn pm1_rows(maxb2: u64) -> Vec<Row> {
+    pollard_pm1::vhook::stage2_table().iter().map(|&(b2, d1, d2)| Row { b2: b2 as u64, d1, d2 }).filter(|r| r.b2 <= maxb2).collect()
+}
+
+// ------------------------------------------------------------------------------------------
+// running one method, capturing its grid events
+// ------------------------------------------------------------------------------------------
+#[derive(Clone, Debug)]
+enum Method {
+    Pm1 { b1: u64, b2: f64 },
+    Pp1 { seed: u64, b1: u64, b2: f64 },
+    Ecm { seed: u32, b1: u64, b2: f64 },
+    Ecm128 { seed: u32, b1: u64, b2: f64 },
+    Pm1Base { budget: usize },
+}
+
+impl Method {
+    fn name(&self) -> &'static str {
+        match self {
+            Method::Pm1 { .. } => "pm1",
+            Method::Pp1 { .. } => "pp1",
+            Method::Ecm { .. } => "ecm",
+            Method::Ecm128 { .. } => "ecm128",
+            Method::Pm1Base { .. } => "pm1b",
+        }
+    }
+}
+
+struct RunOut {
+    /// {"some": bool, "parts": [digits]} or {"outcome": ...}; "skip" when the curve could not be built
+    res: Value,
+    hooks: Vec<Value>,
+    curve: Option<Value>,
+}
+
+fn parts_value(r: Option<Vec<Uint>>) -> Value {
+    match r {
+        None => json!({"some": false, "parts": []}),
+        Some(v) => json!({"some": true, "parts": v.iter().map(dn).collect::<Vec<_>>(), "partsd": v.iter().map(|x| x.to_string()).collect::<Vec<_>>()}),
+    }
+}
+
+fn run_method(n: &Uint, m: &Method) -> RunOut {
+    let nn = *n;
+    let mm_ = m.clone();
+    let mut curve = None;
+    yamaquasi::verif::start();
+    let r: Result<Option<Value>, Value> = match m {
+        Method::Pm1 { b1, b2 } => {
+            let (b1, b2) = (*b1, *b2);
+            guard_deadline(600.0, move || {
+                Some(parts_value(pollard_pm1::pm1_impl(&nn, b1, b2, Verbosity::Silent).map(|(mut f, r)| {
+                    f.push(r);
+                    f
+                })))
+            })
+        }
+        Method::Pp1 { seed, b1, b2 } => {
+            let (seed, b1, b2) = (*seed, *b1, *b2);
+            guard_deadline(600.0, move || {
+                Some(parts_value(pp1::pp1(nn, seed, b1, b2, Verbosity::Silent).map(|(mut f, r)| {
+                    f.push(r);
+                    f
+                })))
+            })
+        }
+        Method::Ecm { seed, b1, b2 } => match suyama_curve(n, *seed) {
+            None => Ok(None),
+            Some((zn, c, d, g)) => {
+                curve = Some(json!({"d": dn(&d), "g": [dn(&g.0), dn(&g.1), dn(&g.2)]}));
+                let (b1, b2) = (*b1, *b2);
+                guard_deadline(600.0, move || {
+                    let sb = SmoothBase::new(b1 as usize, true);
+                    // the public entry point hands the table value of B2 to the single-curve routine
+                    let b2t = params::stage2_params(b2).0;
+                    Some(parts_value(eh::ecm_curve(&sb, &zn, &c, b2t).map(|(a, b)| vec![a, b])))
+                })
+            }
+        },
+        Method::Ecm128 { seed, b1, b2 } => match suyama_curve(n, *seed) {
+            None => Ok(None),
+            Some((zn, c, d, g)) => {
+                curve = Some(json!({"d": dn(&d), "g": [dn(&g.0), dn(&g.1), dn(&g.2)]}));
+                let (b1, b2) = (*b1, *b2);
+                guard_deadline(600.0, move || {
+                    let sb = SmoothBase::new(b1 as usize, false);
+                    let n128 = nn.digits()[0] as u128 | (nn.digits()[1] as u128) << 64;
+                    let gm = eh::coords(c.gen());
+                    let lo = |m: &MInt| m.0[0] as u128 | (m.0[1] as u128) << 64;
+                    let c128 = h128::from_point(n128, &(lo(&gm.0), lo(&gm.1), lo(&gm.2)));
+                    let _ = &zn;
+                    Some(parts_value(h128::ecm_curve(&c128, &sb, b2).map(|(a, b)| vec![Uint::from(a), Uint::from(b)])))
+                })
+            }
+        },
+        Method::Pm1Base { budget } => {
+            let budget = *budget;
+            guard_deadline(600.0, move || {
+                let pb = pollard_pm1::PM1Base::new();
+                Some(parts_value(pb.factor(nn.digits()[0], budget).map(|(a, b)| vec![Uint::from(a), Uint::from(b)])))
+            })
+        }
+    };
+    let _ = mm_;
+    let hooks: Vec<Value> = yamaquasi::verif::stop().iter().filter_map(|s| serde_json::from_str::<Value>(s).ok()).filter(|v| v["op"].as_str().map(|o| o.starts_with("s2_")).unwrap_or(false)).collect();
+    let res = match r {
+        Ok(Some(v)) => v,
+        Ok(None) => json!({"skip": true}),
+        Err(e) => e,
+    };
+    RunOut { res, hooks, curve }
+}
+
+/// aggregates the hook events of one run into one grid event body (None when stage 2 was not reached)
+fn grid_of(hooks: &[Value], want: &str) -> Option<Value> {
+    let of = |op: &str, m: &str| -> Vec<&Value> { hooks.iter().filter(|h| h["op"] == op && h["m"] == m).collect() };
+    let ints = |v: Vec<&Value>, f: &str| -> Vec<u64> { v.iter().filter_map(|h| h[f].as_u64()).collect() };
+    match want {
+        "ecm" | "ecm128" | "pp1" => {
+            let hdr = *of("s2_hdr", want).first()?;
+            let giants = ints(of("s2_g", want), "k");
+            if giants.is_empty() {
+                return None;
+            }
+            Some(json!({"b2": hdr["b2"], "b2rep": hdr["b2rep"], "d1": hdr["d1"], "d2": hdr["d2"],
+                        "babies": ints(of("s2_b", want), "e"), "giants": giants}))
+        }
+        "pm1" => {
+            let hdr = *of("s2_hdr", "pm1").first()?;
+            if let Some(ph) = of("s2_hdr", "pm1poly").first() {
+                let conv = *of("s2_conv", "pm1poly").first()?;
+                Some(json!({"kind": "poly", "b1": hdr["b1"], "b2": hdr["b2"], "b2rep": hdr["b2rep"], "d1": ph["d1"], "d2": ph["d2"],
+                            "babies": ints(of("s2_b", "pm1poly"), "e"), "plen": conv["plen"], "nvals": conv["nvals"]}))
+            } else {
+                let w = ints(of("s2_w", "pm1"), "p");
+                if w.is_empty() {
+                    return None;
+                }
+                Some(json!({"kind": "walk", "b1": hdr["b1"], "b2": hdr["b2"], "b2rep": hdr["b2rep"], "walk": w}))
+            }
+        }
+        "pm1b" => {
+            let hdr = *of("s2_hdr", "pm1b").first()?;
+            let w = ints(of("s2_w", "pm1b"), "p");
+            if w.len() < 2 {
+                return None;
+            }
+            Some(json!({"budget": hdr["budget"], "fmax": hdr["fmax"], "nfac": hdr["nfac"], "pmax": hdr["pmax"], "first": w[0], "last": w[w.len() - 1]}))
+        }
+        _ => None,
+    }
+}
+
+// ------------------------------------------------------------------------------------------
+// instance construction
+// ------------------------------------------------------------------------------------------
+/// stage-2 primes worth trying for a grid (d1, d2) and bounds (b1, b2eff]
+fn targets(rng: &mut StdRng, b1: u64, b2eff: u64, d1: u64, d2: u64, nrand: usize) -> Vec<u64> {
+    let mut t = BTreeSet::new();
+    let all_small = b2eff - b1 < 400;
+    if all_small {
+        return primes_in(b1 + 1, b2eff);
+    }
+    // first and last three primes
+    let mut x = b1;
+    for _ in 0..3 {
+        x = next_prime(x);
+        t.insert(x);
+    }
+    let mut x = b2eff + 1;
+    for _ in 0..3 {
+        x = prev_prime(x);
+        t.insert(x);
+    }
+    if d1 > 0 {
+        // primes adjacent to multiples of d1, near both ends and in the middle of the grid
+        for k in [1, 2, d2 / 2, d2.saturating_sub(1), d2, d2 + 1] {
+            if k == 0 {
+                continue;
+            }
+            let c = k * d1;
+            for y in [prev_prime(c), next_prime(c)] {
+                t.insert(y);
+            }
+            // edges of the band of giant step k: k*d1 +- b for the extreme baby steps
+            let half = d1 / 2;
+            for y in [prev_prime(c + half + 1), next_prime(c + half), next_prime(c.saturating_sub(half + 2).max(2)), prev_prime(c.saturating_sub(half).max(4))] {
+                t.insert(y);
+            }
+        }
+    }
+    for _ in 0..nrand {
+        t.insert(next_prime(rng.gen_range(b1..b2eff)));
+    }
+    t.into_iter().filter(|&l| l > b1 && l <= b2eff).collect()
+}
+
+/// maximal prime powers r^e < b1
+fn max_powers(b1: u64) -> Vec<u64> {
+    let mut v = vec![];
+    for r in [2u64, 3, 5, 7, 11, 13] {
+        if r >= b1 {
+            break;
+        }
+        let mut x = r;
+        while x * r < b1 {
+            x *= r;
+        }
+        v.push(x);
+    }
+    v
+}
+
+struct PInst {
+    p: u64,
+    s: u64,
+    sfac: Vec<(u64, u32)>,
+}
+
+/// prime p = s*l + sign with s a product of prime powers below b1 (trying to include a maximal one);
+/// p < 2^31 (certified by trial division in the spec) or, for sign = +1, s < l (Pocklington with l)
+fn find_p(l: u64, b1: u64, sign: i64, salt: usize) -> Option<PInst> {
+    let mp = max_powers(b1);
+    let mut bases: Vec<u64> = vec![];
+    for i in 0..mp.len() {
+        bases.push(mp[(i + salt) % mp.len()]);
+    }
+    bases.push(1);
+    for base in bases {
+        for t in 1..4000u64 {
+            let s = base * t;
+            if s % 2 == 1 {
+                continue;
+            }
+            let big = s.checked_mul(l)?;
+            let p = (big as i64 + sign) as u64;
+            let fits = p < (1 << 31) || (sign == 1 && s < l && p < (1 << 50));
+            if !fits {
+                break;
+            }
+            if p < 1000 || p % 3 == 0 {
+                continue;
+            }
+            if let Some(sfac) = smooth_below(s, b1) {
+                if is_prime_u64(p) {
+                    return Some(PInst { p, s, sfac });
+                }
+            }
+        }
+    }
+    None
+}
+
+fn pchain(p: u64, l: u64) -> Value {
+    if p < (1 << 31) {
+        json!([{"ps": p, "p": du(p)}])
+    } else {
+        // Pocklington with q = l: l | p - 1, l^2 > p
+        for a in 2u64..200 {
+            if pw(a, p - 1, p) == 1 && gcd64((pw(a, (p - 1) / l, p) + p - 1) % p, p) == 1 {
+                return json!([{"ps": l, "p": du(l)}, {"p": du(p), "q": du(l), "a": a}]);
+            }
+        }
+        Value::Null
+    }
+}
+
+/// q prime < 2^31 with f | ord_q(2), f prime >= fmin
+fn find_q_pm1(rng: &mut StdRng, fmin: u64) -> (u64, u64) {
+    loop {
+        let f = next_prime(fmin + rng.gen_range(0..fmin / 4));
+        for j in 1..200u64 {
+            let q = 2 * j * f + 1;
+            if q >= (1 << 31) {
+                break;
+            }
+            if q % 3 != 0 && is_prime_u64(q) && pw(2, (q - 1) / f, q) != 1 {
+                return (q, f);
+            }
+        }
+    }
+}
+/// q prime < 2^31 such that the P+1 group element of `seed` has order divisible by the prime f >= fmin;
+/// returns (q, f, sign) with N = q + sign the order of the group containing it
+fn find_q_pp1(rng: &mut StdRng, seed: u64, fmin: u64) -> (u64, u64, i64) {
+    loop {
+        let f = next_prime(fmin + rng.gen_range(0..fmin / 4));
+        for j in 1..200u64 {
+            for sign in [1i64, -1] {
+                let q = (2 * j * f) as i64 - sign;
+                if q <= 5 || q >= (1 << 31) {
+                    continue;
+                }
+                let q = q as u64;
+                if q % 3 == 0 || !is_prime_u64(q) {
+                    continue;
+                }
+                let disc = (seed * seed - 4) % q;
+                let e = euler(disc, q);
+                let want = if sign == 1 { q - 1 } else { 1 };
+                if e != want {
+                    continue;
+                }
+                let nn = (q as i64 + sign) as u64;
+                if lucas_v(seed, nn, q) == 2 && lucas_v(seed, nn / f, q) != 2 {
+                    return (q, f, sign);
+                }
+            }
+        }
+    }
+}
+
+struct EcmQ {
+    q: u64,
+    f: u64,
+    c: u64,
+}
+/// q prime < 2^31 with [c f]G = O and [c]G != O modulo q on the Suyama curve of `seed`
+fn find_q_ecm(rng: &mut StdRng, seed: u32, fmin: u64) -> Option<EcmQ> {
+    for _ in 0..40 {
+        let f = next_prime(fmin + rng.gen_range(0..fmin / 4));
+        for c in [12u64, 24, 36, 48, 60, 72] {
+            let m = c * f;
+            if m >= (1 << 31) - (1 << 17) {
+                break;
+            }
+            let w = 2 * (m as f64).sqrt() as u64 + 2;
+            let mut q = m - w;
+            while q <= m + w {
+                q = next_prime(q);
+                if q > m + w || q >= (1 << 31) {
+                    break;
+                }
+                if let Some((d, g)) = small_curve(q, seed) {
+                    if ed_is_id(&ed_mul(d, q, m, &g)) && ed_clean_nonid(&ed_mul(d, q, c, &g)) {
+                        return Some(EcmQ { q, f, c });
+                    }
+                }
+            }
+        }
+    }
+    None
+}
+
+struct EcmP {
+    p: u64,
+    seed: u32,
+    c: u64,
+    cfac: Vec<(u64, u32)>,
+}
+/// (seed, prime p) with [c l]G = O and [c]G != O modulo p, c a product of prime powers below b1
+fn find_p_ecm(l: u64, b1: u64, seeds: &[u32], salt: usize) -> Option<EcmP> {
+    // smooth cofactors: multiples of 12 (the family's torsion), preferring ones with a maximal prime power
+    let mut cs: Vec<(u64, Vec<(u64, u32)>)> = vec![];
+    let lim = ((1u64 << 31) / l).min(60_000);
+    let mut c = 12;
+    while c <= lim {
+        if let Some(f) = smooth_below(c, b1) {
+            cs.push((c, f));
+        }
+        c += 12;
+    }
+    let mp = max_powers(b1);
+    cs.sort_by_key(|(c, _)| (!mp.iter().any(|m| c % m == 0), *c));
+    let mut tried = 0;
+    for (c, cfac) in cs.iter().skip(salt % 3) {
+        let m = c * l;
+        if m < 2000 {
+            continue;
+        }
+        let w = 2 * (m as f64).sqrt() as u64 + 2;
+        let mut p = m - w;
+        while p <= m + w {
+            p = next_prime(p);
+            if p > m + w {
+                break;
+            }
+            if p % 3 == 0 {
+                continue;
+            }
+            for &seed in seeds {
+                tried += 1;
+                if let Some((d, g)) = small_curve(p, seed) {
+                    if ed_is_id(&ed_mul(d, p, m, &g)) && ed_clean_nonid(&ed_mul(d, p, *c, &g)) {
+                        return Some(EcmP { p, seed, c: *c, cfac: cfac.clone() });
+                    }
+                }
+            }
+        }
+        if tried > 400_000 {
+            break;
+        }
+    }
+    None
+}
+
+fn jfac(f: &[(u64, u32)]) -> Value {
+    Value::from(f.iter().map(|&(r, e)| json!([r, e])).collect::<Vec<_>>())
+}
+
+fn merge(mut base: Value, extra: &Value) -> Value {
+    if let (Some(b), Some(e)) = (base.as_object_mut(), extra.as_object()) {
+        for (k, v) in e {
+            b.insert(k.clone(), v.clone());
+        }
+    }
+    base
+}
+
+/// strategy pairs hard-wired in the code (inputs to try, not an oracle): (method, B1, B2 requested)
+fn hardwired() -> Vec<(&'static str, u64, f64)> {
+    vec![
+        ("ecm", 200, 7.7e3), ("ecm", 600, 20e3), ("ecm", 2000, 80e3), ("ecm", 2000, 81e3), ("ecm", 2500, 126e3),
+        ("ecm", 10000, 554e3), ("ecm", 25000, 1.37e6),
+        ("ecm128", 16, 660.), ("ecm128", 40, 1080.), ("ecm128", 50, 1920.), ("ecm128", 60, 1920.), ("ecm128", 100, 3e3),
+        ("ecm128", 180, 7.7e3), ("ecm128", 350, 13.2e3), ("ecm128", 600, 20e3), ("ecm128", 1000, 53e3), ("ecm128", 1500, 81e3),
+        ("ecm128", 3600, 181e3), ("ecm128", 10000, 554e3),
+        ("pm1", 600, 40e3), ("pm1", 10000, 270e3), ("pm1", 16384, 450e3),
+    ]
+}
+
+fn maxpf(x: u64) -> u64 {
+    factor_small(x).iter().map(|f| f.0).max().unwrap_or(1)
+}
+
+pub fn run(args: &Args) -> i32 {
+    let seed = arg_u64(args, "seed", 1);
+    let thorough = arg_str(args, "tier", "quick") == "thorough";
+    let mut out = Out::create(arg_str(args, "out", "trace.ndjson"));
+    let mut rng = rng_for(seed, "c16");
+    let maxb2: u64 = if thorough { 1_400_000 } else { 100_000 };
+    let inst_maxb2: u64 = arg_u64(args, "instmax", if thorough { 1_400_000 } else { 21_000 });
+    let only: Option<&str> = args.get("only").map(|s| s.as_str());
+
+    // ---- tables
+    let prow = params_rows(maxb2);
+    let mrow = pm1_rows(maxb2.max(100_000));
+    let thr = pollard_pm1::vhook::multieval_threshold();
+    for r in &prow {
+        out.ev(json!({"op": "row", "case": format!("params/{}", r.b2), "table": "params", "b2": r.b2, "d1": r.d1, "d2": r.d2}));
+    }
+    for r in &mrow {
+        out.ev(json!({"op": "row", "case": format!("pm1/{}", r.b2), "table": "pm1", "b2": r.b2, "d1": r.d1, "d2": r.d2,
+                      "poly": r.b2 as f64 > thr}));
+    }
+
+    // ---- (method, B1, B2 requested) configurations: every row with a default B1, plus the hard-wired pairs
+    let mut cfgs: Vec<(String, u64, f64)> = vec![];
+    for r in &prow {
+        let b1 = maxpf(r.d1).max(16) + 14; // >= largest prime factor of d1 (see assumptions), small enough for p < 2^31
+        for m in ["ecm", "ecm128", "pp1"] {
+            cfgs.push((m.to_string(), b1, r.b2 as f64));
+        }
+    }
+    for r in &mrow {
+        if (r.b2 as f64) > thr {
+            cfgs.push(("pm1".to_string(), 30, r.b2 as f64));
+        }
+    }
+    // the prime walk of P-1 (requested B2 at most the threshold): small, mid, the largest walked
+    for b2 in [700.0, 5000.0, 40e3, 80e3] {
+        if b2 <= maxb2 as f64 {
+            cfgs.push(("pm1".to_string(), 30, b2));
+        }
+    }
+    for (m, b1, b2) in hardwired() {
+        if b2 <= maxb2 as f64 {
+            cfgs.push((m.to_string(), b1, b2));
+        }
+    }
+    cfgs.dedup();
+    if let Some(o) = only {
+        cfgs.retain(|c| c.0 == o);
+    }
+
+    // a modulus on which none of the methods finds anything quickly: product of two 61/62-bit primes
+    let nbig = Uint::from(2305843009213693951u64) * Uint::from(4611686018427387847u64);
+    let fmin_big: u64 = 1 << 23;
+    let (q_pm1, f_pm1) = find_q_pm1(&mut rng, fmin_big);
+    let mut q_pp1: BTreeMap<u64, (u64, u64, i64)> = BTreeMap::new();
+    let mut q_ecm: BTreeMap<u32, Option<(u64, u64, u64)>> = BTreeMap::new();
+    let seeds: Vec<u32> = (2..14).collect();
+
+    for (ci, (m, b1, b2)) in cfgs.iter().enumerate() {
+        let (b1, b2) = (*b1, *b2);
+        let cname = format!("{}/{}/{}", m, b1, b2 as u64);
+        let mk = |seed: u64| -> Method {
+            match m.as_str() {
+                "pm1" => Method::Pm1 { b1, b2 },
+                "pp1" => Method::Pp1 { seed, b1, b2 },
+                "ecm" => Method::Ecm { seed: seed as u32, b1, b2 },
+                _ => Method::Ecm128 { seed: seed as u32, b1, b2 },
+            }
+        };
+        // ---- grid of a real run (nothing to find: stage 2 is reached)
+        let g = run_method(&nbig, &mk(if m == "pp1" { 6 } else { 2 + (ci as u64 % 5) }));
+        let grid = match grid_of(&g.hooks, m) {
+            Some(gr) => gr,
+            None => {
+                out.ev(merge(json!({"op": "grid", "case": cname, "m": m, "b1": b1, "nogrid": true}), &g.res));
+                continue;
+            }
+        };
+        out.ev(merge(json!({"op": "grid", "case": cname, "m": m, "b1": b1, "nd": nbig.to_string()}), &grid));
+        let b2rep = grid["b2rep"].as_u64().unwrap();
+        let b2eff = if m == "pm1" { b2rep.min(b2 as u64) } else { b2rep };
+        if b2eff > inst_maxb2 {
+            continue;
+        }
+        let (d1, d2) = (grid["d1"].as_u64().unwrap_or(0), grid["d2"].as_u64().unwrap_or(0));
+        // the certified prime factor of q's group order must exceed everything the grid can reach
+        let reach = (4 * d1 * (d2 + 2)).max(4 * b2rep).max(4 * b2 as u64).max(b1);
+        assert!(fmin_big > reach, "f bound too small for {}", cname);
+        // ---- instances
+        let nrand = if thorough { 6 } else { 3 };
+        let ls = targets(&mut rng, b1, b2eff, d1, d2, nrand);
+        for (li, &l) in ls.iter().enumerate() {
+            let icase = format!("{}/l{}", cname, l);
+            let base = json!({"op": "inst", "case": icase, "m": m, "b1": b1, "b2": b2 as u64, "b2rep": b2rep, "d1": d1, "d2": d2, "l": l});
+            match m.as_str() {
+                "pm1" => {
+                    let Some(pi) = find_p(l, b1, 1, li) else { continue };
+                    let n = Uint::from(pi.p) * Uint::from(q_pm1);
+                    let r = run_method(&n, &mk(0));
+                    out.ev(merge(merge(base, &json!({"n": dn(&n), "nd": n.to_string(), "p": du(pi.p), "pd": pi.p, "q": q_pm1, "s": du(pi.s), "sfac": jfac(&pi.sfac),
+                        "pchain": pchain(pi.p, l), "f": f_pm1})), &r.res));
+                }
+                "pp1" => {
+                    let Some(pi) = find_p(l, b1, -1, li) else { continue };
+                    let Some(sd) = (3u64..40).find(|&s| euler((s * s - 4) % pi.p, pi.p) == pi.p - 1) else { continue };
+                    let (q, f, sign) = *q_pp1.entry(sd).or_insert_with(|| find_q_pp1(&mut rng, sd, fmin_big));
+                    let n = Uint::from(pi.p) * Uint::from(q);
+                    let r = run_method(&n, &mk(sd));
+                    out.ev(merge(merge(base, &json!({"n": dn(&n), "nd": n.to_string(), "p": du(pi.p), "pd": pi.p, "q": q, "s": du(pi.s), "sfac": jfac(&pi.sfac),
+                        "pchain": pchain(pi.p, l), "f": f, "seed": sd, "qsign": sign})), &r.res));
+                }
+                _ => {
+                    // rotate the seed list so that different curves are used
+                    let mut sds = seeds.clone();
+                    sds.rotate_left(li % seeds.len());
+                    let Some(pi) = find_p_ecm(l, b1, &sds[..6], li) else { continue };
+                    let qe = q_ecm.entry(pi.seed).or_insert_with(|| find_q_ecm(&mut rng, pi.seed, fmin_big).map(|e| (e.q, e.f, e.c)));
+                    let Some((q, f, qc)) = *qe else { continue };
+                    if q == pi.p {
+                        continue;
+                    }
+                    let n = Uint::from(pi.p) * Uint::from(q);
+                    // the curve over n must reduce cleanly: re-check both certificates on its reduction
+                    let Some((_, _, d, g)) = suyama_curve(&n, pi.seed) else { continue };
+                    let red = |x: &Uint, md: u64| (*x % Uint::from(md)).digits()[0];
+                    let (gp, gq) = ((red(&g.0, pi.p), red(&g.1, pi.p), red(&g.2, pi.p)), (red(&g.0, q), red(&g.1, q), red(&g.2, q)));
+                    let (dp, dq) = (red(&d, pi.p), red(&d, q));
+                    if !(ed_is_id(&ed_mul(dp, pi.p, pi.c * l, &gp)) && ed_is_id(&ed_mul(dq, q, qc * f, &gq)) && ed_clean_nonid(&ed_mul(dq, q, qc, &gq))) {
+                        continue;
+                    }
+                    let r = run_method(&n, &mk(pi.seed as u64));
+                    if r.res.get("skip").is_some() {
+                        continue;
+                    }
+                    out.ev(merge(merge(merge(base, &json!({"n": dn(&n), "nd": n.to_string(), "p": du(pi.p), "pd": pi.p, "q": q, "s": du(pi.c), "sfac": jfac(&pi.cfac),
+                        "pchain": pchain(pi.p, l), "f": f, "qc": qc, "seed": pi.seed})), r.curve.as_ref().unwrap()), &r.res));
+                }
+            }
+        }
+    }
+
+    // ---- PM1Base (64-bit two-stage variant): B1 = 1024 over primes below 500, walk over the large primes
+    if only.is_none() || only == Some("pm1b") {
+        for &budget in if thorough { &[1024usize, 1100, 2000, 5000, 20000, 40000, 66000][..] } else { &[1024usize, 1100, 2000, 20000][..] } {
+            let cname = format!("pm1b/{}", budget);
+            let n0 = 2147483659u64 * 2147483693u64; // nothing to find
+            let g = run_method(&Uint::from(n0), &Method::Pm1Base { budget });
+            let Some(grid) = grid_of(&g.hooks, "pm1b") else { continue };
+            out.ev(merge(json!({"op": "grid", "case": cname, "m": "pm1b", "b1": 1024}), &grid));
+            let (first, last) = (grid["first"].as_u64().unwrap(), grid["last"].as_u64().unwrap());
+            let mut ls: BTreeSet<u64> = BTreeSet::new();
+            ls.insert(first);
+            ls.insert(last);
+            if last > first {
+                ls.insert(next_prime(first));
+                ls.insert(prev_prime(last));
+                for _ in 0..4 {
+                    ls.insert(next_prime(rng.gen_range(first..last)).min(last));
+                }
+            }
+            for (li, &l) in ls.iter().enumerate() {
+                // prime powers below 1024 of primes below 500
+                let Some(pi) = (0..6).filter_map(|k| find_p(l, 500, 1, li + k)).find(|pi| pi.p < (1 << 31)) else { continue };
+                let n = Uint::from(pi.p) * Uint::from(q_pm1);
+                let r = run_method(&n, &Method::Pm1Base { budget });
+                let lastrun = grid_of(&r.hooks, "pm1b").map(|g| g["last"].clone()).unwrap_or(Value::Null);
+                out.ev(merge(json!({"op": "inst", "case": format!("{}/l{}", cname, l), "m": "pm1b", "b1": 500, "b2": last, "b2rep": last, "d1": 0, "d2": 0, "l": l,
+                    "n": dn(&n), "nd": n.to_string(), "p": du(pi.p), "pd": pi.p, "q": q_pm1, "s": du(pi.s), "sfac": jfac(&pi.sfac), "pchain": pchain(pi.p, l),
+                    "f": f_pm1, "budget": budget, "lastrun": lastrun}), &r.res));
+            }
+        }
+    }
+
+    // ---- splits returned by rho and gcd_factors
+    if only.is_none() || only == Some("split") {
+        let nsplit = if thorough { 400 } else { 120 };
+        for i in 0..nsplit {
+            let bits = 8 + (i % 25) as u32; // primes of 8..32 bits
+            let rp = |rng: &mut StdRng, b: u32| loop {
+                let c = rand_bits(rng, b).digits()[0] | 1;
+                if is_prime_u64(c) {
+                    return c;
+                }
+            };
+            let p = rp(&mut rng, bits);
+            let q = if i % 11 == 0 { p } else { rp(&mut rng, (bits + (i / 25) as u32 % 4).min(32)) };
+            let n = p * q;
+            let c = 1 + (i as u64 % 3);
+            let iters = [128u64, 512, 2048, 8192, 131072][i % 5];
+            let r = guard_deadline(300.0, move || parts_value(pollard_rho::rho64(n, c, iters).map(|(a, b)| vec![Uint::from(a), Uint::from(b)])));
+            out.ev(merge(json!({"op": "split", "case": format!("rho64/{}/{}/{}", n, c, iters), "via": "rho64", "n": du(n), "nd": n.to_string()}), &r.unwrap_or_else(|e| e)));
+            if i % 3 == 0 {
+                let nn = Uint::from(n);
+                let r = guard_deadline(300.0, move || {
+                    parts_value(pollard_rho::rho(&nn, Verbosity::Silent).map(|(mut f, r)| {
+                        f.push(r);
+                        f
+                    }))
+                });
+                out.ev(merge(json!({"op": "split", "case": format!("rho/{}", n), "via": "rho", "n": du(n), "nd": n.to_string()}), &r.unwrap_or_else(|e| e)));
+            }
+            if i % 4 == 0 {
+                // multiprecision variant on a three-prime number
+                let r3 = rp(&mut rng, 20);
+                let nn = Uint::from(n) * Uint::from(r3);
+                let r = guard_deadline(300.0, move || {
+                    parts_value(pollard_rho::rho_impl(&nn, 2, 4000, Verbosity::Silent).map(|(mut f, r)| {
+                        f.push(r);
+                        f
+                    }))
+                });
+                out.ev(merge(json!({"op": "split", "case": format!("rho_impl/{}", nn), "via": "rho_impl", "n": dn(&nn), "nd": nn.to_string()}), &r.unwrap_or_else(|e| e)));
+            }
+        }
+        // gcd_factors on cumulative products in which chosen primes enter at chosen positions
+        for i in 0..(if thorough { 200 } else { 60 }) {
+            let np = 2 + i % 3;
+            let mut ps: Vec<Uint> = vec![];
+            while ps.len() < np {
+                let b = [16u32, 31, 40, 61][rng.gen_range(0..4)];
+                let c = rand_bits(&mut rng, b).digits()[0] | 1;
+                if is_prime_u64(c) && !ps.contains(&Uint::from(c)) {
+                    ps.push(Uint::from(c));
+                }
+            }
+            let n = ps.iter().fold(Uint::ONE, |a, b| a * *b);
+            let len = [1usize, 2, 3, 5, 8, 17, 64][i % 7];
+            // position at which each prime enters (same position for two primes in some cases; -1: never)
+            let pos: Vec<i64> = (0..np).map(|j| if i % 5 == 4 && j == 1 { -1 } else if i % 4 == 3 && j > 0 { 0i64.max(len as i64 / 2) } else { rng.gen_range(0..len as i64) }).collect();
+            let zn = ZmodN::new(n);
+            let mut vals: Vec<MInt> = vec![];
+            let mut acc = Uint::ONE;
+            for t in 0..len {
+                let mut x = crate::gen::rand_below(&mut rng, &n);
+                // keep x coprime to n, then multiply in the primes entering here
+                while !crate::gen::gcd(&x, &n).is_one() {
+                    x = crate::gen::rand_below(&mut rng, &n);
+                }
+                for (j, p) in ps.iter().enumerate() {
+                    if pos[j] == t as i64 {
+                        x = crate::gen::mulmod(&x, p, &n);
+                    }
+                }
+                acc = crate::gen::mulmod(&acc, &x, &n);
+                vals.push(zn.from_int(acc));
+            }
+            let nn = n;
+            let v2 = vals.clone();
+            let r = guard_deadline(300.0, move || {
+                let (f, r) = gcd_factors(&nn, &v2);
+                let mut v = f.clone();
+                v.push(r);
+                let mut o = parts_value(Some(v));
+                o["nfac"] = json!(f.len());
+                o
+            });
+            let plain: Vec<Value> = vals.iter().map(|v| dn(&zn.to_int(*v))).collect();
+            out.ev(merge(json!({"op": "split", "case": format!("gcdf/{}", i), "via": "gcd_factors", "n": dn(&n), "nd": n.to_string(),
+                "first": plain[0], "last": plain[plain.len() - 1], "len": len}), &r.unwrap_or_else(|e| e)));
+        }
+    }
+
+    // ---- exponentiation helpers against their definitions
+    if only.is_none() || only == Some("exp") {
+        let mods = [Uint::from(18446744073709551557u64), (Uint::ONE << 127) - Uint::ONE, Uint::from(1000003u64 * 998244353u64)];
+        let exps: Vec<u64> = vec![0, 1, 2, 3, 4, 7, 8, 9, 63, 64, 255, 1 << 32, (1 << 61) - 1, 1 << 61, 1 << 62, 1 << 63, (1 << 63) + 1, u64::MAX, u64::MAX - 1,
+            0x8000_0000_0000_0003, 0xe000_0000_0000_0000, 0xa000_0000_0000_0001, rng.gen(), rng.gen::<u64>() >> 7, rng.gen::<u64>() >> 33];
+        for (i, &e) in exps.iter().enumerate() {
+            let n = mods[i % mods.len()];
+            let zn = ZmodN::new(n);
+            let g = crate::gen::rand_below(&mut rng, &n);
+            let gm = zn.from_int(g);
+            let r = guard(|| json!({"r": dn(&zn.to_int(pollard_pm1::vhook::exp_modn(&zn, &gm, e)))}));
+            out.ev(merge(json!({"op": "expmod", "case": format!("exp_modn/{}", e), "via": "exp_modn", "n": dn(&n), "g": dn(&g), "e": du(e)}), &r.unwrap_or_else(|e| e)));
+            let r = guard(|| json!({"r": dn(&zn.to_int(pp1::vhook::chebyshev_modn(&zn, &gm, e)))}));
+            out.ev(merge(json!({"op": "cheb", "case": format!("cheb/{}", e), "n": dn(&n), "g": dn(&g), "e": du(e)}), &r.unwrap_or_else(|e| e)));
+        }
+        let one = Uint::ONE;
+        let mut big: Vec<Uint> = vec![Uint::ZERO, one, Uint::from(5u64), one << 64, (one << 64) + one, (one << 65) - one, (one << 70) | Uint::from(63u64),
+            Uint::MAX, Uint::MAX - Uint::from(62u64), one << 1023, (one << 1023) | (one << 5), (one << 960) - one];
+        for _ in 0..(if thorough { 12 } else { 4 }) {
+            let b = rng.gen_range(65..=1024);
+            big.push(rand_bits(&mut rng, b));
+        }
+        for (i, e) in big.iter().enumerate() {
+            let n = mods[i % mods.len()];
+            let zn = ZmodN::new(n);
+            let g = crate::gen::rand_below(&mut rng, &n);
+            let gm = zn.from_int(g);
+            let r = guard(|| json!({"r": dn(&zn.to_int(pollard_pm1::vhook::exp_modn_large(&zn, &gm, e)))}));
+            out.ev(merge(json!({"op": "expmod", "case": format!("exp_modn_large/{}", i), "via": "exp_modn_large", "n": dn(&n), "g": dn(&g), "e": dn(e)}), &r.unwrap_or_else(|e| e)));
+        }
+    }
+    let n = out.finish();
+    println!("{}", json!({"events": n}));
+    0
 }
